@@ -80,6 +80,11 @@ func (cg *callerGen) schemaFor(g *GT, omit bool) (avro.Schema, bool) {
 		case "nullstring", "nulltime":
 			base = prim("string")
 		}
+		if cg.rng.Intn(3) == 0 {
+			// a plain schema over a wrapper type: every value written is a valid wrapper / a
+			// non-zero time (fitValue sees to it), on the wire as the bare base type
+			return base, true
+		}
 		return cg.nullable(base), true // zero time / invalid wrapper need a null branch
 	}
 	var base avro.Schema
@@ -192,6 +197,7 @@ func fitValue(rng *rand.Rand, s avro.Schema, g *GT, v reflect.Value) {
 		}
 		return
 	}
+	plain := s.Type != "union"
 	s = unwrapNull(s)
 	lt := ""
 	if s.Object != nil {
@@ -207,12 +213,24 @@ func fitValue(rng *rand.Rand, s avro.Schema, g *GT, v reflect.Value) {
 		if !ok || !x.CanSet() {
 			return
 		}
+		if plain && u.Wrap != "time" {
+			// no null branch to write an invalid wrapper as
+			if f := x.FieldByName("Valid"); f.IsValid() && f.CanSet() {
+				f.SetBool(true)
+			}
+		}
 		switch u.Wrap {
 		case "time":
 			t, _ := timeOf(x)
+			if plain && t.IsZero() {
+				t = time.Unix(rng.Int63n(4e9)-2e9, int64(rng.Intn(1e9))).UTC()
+			}
 			x.Set(reflect.ValueOf(fitTime(rng, s.Type, lt, t)))
 		case "nulltime":
 			nt := x.Interface().(null.Time)
+			if plain && nt.Time.IsZero() {
+				nt.Time = time.Unix(rng.Int63n(4e9)-2e9, int64(rng.Intn(1e9))).UTC()
+			}
 			nt.Time = fitTime(rng, s.Type, lt, nt.Time)
 			if !nt.Valid {
 				nt.Time = time.Time{}
@@ -271,7 +289,8 @@ func fitValue(rng *rand.Rand, s avro.Schema, g *GT, v reflect.Value) {
 			if fieldOmitEmpty(f) && v.Field(i).CanSet() && rng.Intn(3) == 0 {
 				// the empty value of an omitempty field: written as the null branch wherever null sits
 				v.Field(i).Set(reflect.Zero(v.Field(i).Type()))
-				continue
+				// a zero struct is not empty and a zero value under a plain schema is written as
+				// it is: wrappers inside still have to be valid where their schema has no null
 			}
 			fitValue(rng, fs, f.T, v.Field(i))
 		}
